@@ -449,6 +449,12 @@ def run_footprint(res, work, tier, seed):
         t = max(t, 32 * mib)                                   # long enough for the growth monitor (4 x warm-up)
         runs.append({"run": rid, "cfg": {"kind": kind, "shape": shape, "total": t, "sizes": sizes, "m": m,
                                          "drain": drain, "seed": rng.randrange(1 << 30)}, "ops": []})
+    # the length bound of C02 is tight exactly at multiples of the later-chunk limit: stuff-free streams of k * 64008 bytes
+    for k in ([300, 1024] if tier == "quick" else [252, 300, 1024, 4000]):
+        rid += 1
+        runs.append({"run": rid, "cfg": {"kind": "enc", "shape": rng.choice(["ones", "nostuff"]), "total": k * L2P,
+                                         "sizes": rng.choice([[65536], [64008], [300000, 7]]), "m": rng.choice(["copy", "borrow", "read"]),
+                                         "drain": rng.choice(["bytes", "slices"]), "seed": rng.randrange(1 << 30)}, "ops": []})
     # a producer with its own arena feeding small anchored blocks (the slice's anchor alone keeps its chunk alive),
     # drained only every few calls so that one consume call crosses several slices and keep-alive anchors
     for kind in ("enc", "pipeline"):
